@@ -3,6 +3,8 @@
 P=$(realpath "$1"); shift
 git -C /repo diff --quiet || { echo "repo dirty"; exit 9; }
 git -C /repo apply "$P" || { echo "patch does not apply"; exit 9; }
-trap 'git -C /repo checkout -- . ; git -C /repo clean -fdq' EXIT INT TERM
+ID="$1"
+# undo the patch and put back the committed evidence file (it must describe the unchanged tree)
+trap 'git -C /repo checkout -- . ; git -C /repo clean -fdq; git -C /verif checkout -- "evidence/$ID.json" 2>/dev/null' EXIT INT TERM
 /verif/check "$@"
 echo "exit=$?"
